@@ -422,6 +422,7 @@ def run(ctx):
     c13.r4_truncation(ctx, ossl, rule_id='C10.R5')
     r6_counter_limit(ctx, configs)
     r7_raw_peer_keys(ctx, ossl)
+    c13.r10_complete_fill(ctx, ossl, rule_id='C10.R8')
 
 
 MUTANTS = [
